@@ -20,7 +20,12 @@ uint16_t nondet_u16(void) { return (uint16_t)next(); }
 uint32_t nondet_u32(void) { return (uint32_t)next(); }
 uint64_t nondet_u64(void) { return next(); }
 int32_t nondet_i32(void) { return (int32_t)next(); }
-float nondet_float(void) { uint32_t b = (uint32_t)next(); float f; memcpy(&f, &b, 4); return f; }
+float nondet_float(void) {
+  uint32_t b = (uint32_t)next();
+  const char *dk = getenv("VH_DYADIC");
+  if (dk && atoi(dk) >= 0) return (float)(int32_t)b / (float)(1 << atoi(dk));      // dyadic query: the trace value is value * 2^K
+  float f; memcpy(&f, &b, 4); return f;
+}
 bool __CPROVER_same_object(const void *, const void *) { return false; }
 void __CPROVER_assume(bool c) { if (!c) { printf("REPLAY: assumption not satisfied\n"); fflush(stdout); _Exit(0); } }
 void __CPROVER_assert(bool c, const char *m) { if (!c) { printf("REPLAY-ASSERT-FAILED: %s\n", m); fflush(stdout); _Exit(42); } }
